@@ -444,6 +444,17 @@ async def _server_process(process):
                         break
                     process.stdout.write(d)
                     await process.stdout.drain()
+            elif k == 'slowcat':
+                # a slow consumer: small reads with loop turns in between, nothing echoed; the byte count comes back
+                total = 0
+                while True:
+                    d = await process.stdin.read(a[1])
+                    if not d:
+                        break
+                    total += len(d)
+                    for _ in range(a[2]):
+                        await asyncio.sleep(0)
+                process.stdout.write(b'%d' % total)
             elif k == 'techo':
                 # text session: every line read from stdin is written back in several separate writes
                 while True:
@@ -1488,6 +1499,94 @@ def judge_pipeline(out, err, src_stream, got):
     return None
 
 
+WRITE_LIMITS = [None, (0, None), (4096, 0), (4096, 4096), (1, None), (3, None), (1000, 100), (200000, 50000)]
+
+
+async def case_writer(conn, limits, size, nwrites, slow, via):
+    """writer side: write() more than the peer's window under the given write-buffer limits, then drain().
+    via 'drain': stdin.write + drain(); via 'redirect': stdin redirected from a BytesIO after the limits were
+    set.  The server consumes everything (slowly when slow > 0) and reports the byte count.
+    Returns (outcome, bytes left in the write buffer when drain returned, low-water mark, count seen by server)."""
+    cid = new_id([('slowcat', 1024 if slow else 65536, slow), ('exit', 0)])
+    proc = await conn.create_process(cid, encoding=None)
+    if limits is not None:
+        proc.channel.set_write_buffer_limits(*limits)
+    if limits is None:
+        high, low = 65536, 16384
+    else:
+        high, lw = limits
+        low = lw if lw is not None else high // 4
+    data = b'w' * size
+    left = None         # worst excess over the applicable mark seen when drain() returned
+    prev = 0
+    try:
+        if via == 'drain':
+            step = max(1, size // nwrites)
+            for i in range(0, size, step):
+                proc.stdin.write(data[i:i + step])
+                await asyncio.wait_for(proc.stdin.drain(), 20)
+                n = proc.channel.get_write_buffer_size()
+                # writing was paused iff the buffer went above the high-water mark; it resumes at the low-water mark
+                bound = low if prev + len(data[i:i + step]) > high else high
+                prev = n
+                left = n - bound if left is None else max(left, n - bound)
+            proc.stdin.write_eof()
+        else:
+            await proc.redirect(stdin=io.BytesIO(data))
+        res = await asyncio.wait_for(proc.wait(), 30)
+        return 'ok', left, low, bytes(res.stdout)
+    except asyncio.TimeoutError:
+        proc.close()
+        return 'hang', left, low, None
+    except OSError as e:
+        proc.close()
+        return 'raised ' + type(e).__name__, left, low, None
+
+
+def judge_writer(size, got):
+    outcome, left, low, seen = got
+    if outcome == 'hang':
+        return 'drain()/wait() did not return although the peer consumed everything that was sent'
+    if outcome != 'ok':
+        return 'writing ' + outcome
+    if seen != b'%d' % size:
+        return f'the peer received {seen!r} bytes of {size}'
+    if left is not None and left > 0:
+        return f'drain() returned with the write buffer {left} bytes above the mark at which writing resumes'
+    return None
+
+
+async def case_reredirect(conn, size, piece, slow, delay):
+    """stdout goes to a slow asynchronously written target, which pauses the channel; while it is paused stdout is
+    redirected again to an eagerly written buffer.  Returns (first target bytes, second target bytes) or None."""
+    data = bytes((i * 7) % 251 for i in range(size))
+    acts = []
+    for i in range(0, size, piece):
+        acts += [('out', data[i:i + piece]), ('drain',)]
+    acts.append(('exit', 0))
+    first = SlowAsyncFile(slow)
+    proc = await conn.create_process(new_id(acts), encoding=None, stdout=first)
+    await asyncio.sleep(delay)
+    second = KeepBytesIO()
+    await proc.redirect(stdout=second)
+    try:
+        await asyncio.wait_for(proc.wait(), 30)
+    except asyncio.TimeoutError:
+        proc.close()
+        return data, None
+    return data, (first.buf, second.getvalue())
+
+
+def judge_reredirect(data, got):
+    if got is None:
+        return 'the process never finished after stdout was redirected a second time while the first target had it paused'
+    a, b = got
+    if a + b != data:
+        return (f'first target got {len(a)} bytes, second {len(b)}, together they are not the {len(data)} bytes sent '
+                f'(prefix ok: {data.startswith(a)})')
+    return None
+
+
 async def e2e_more(ctx):
     rng = ctx.rng
     # ---- (f) stateful encodings, several writes on both sides ---------------------------------------
@@ -1514,6 +1613,54 @@ async def e2e_more(ctx):
             report_once(ctx, 'textenc:' + enc, f'text session with encoding {enc}, {len(pieces)} writes to stdin, echo in '
                         f'{len(cuts) + 1} writes per line: {why}',
                         {'kind': 'e2e_textenc', 'class': 'encoding', 'enc': enc, 'pieces': pieces, 'cuts': cuts, 'mode': mode})
+    # ---- (h) writer side: write-buffer limits, drain, peers with a small window ----------------------------
+    listener, conn = await sshutil.loopback(srv_kw={'process_factory': _server_process, 'encoding': None, 'window': 16384})
+    hangs = 0
+    try:
+        k = 0
+        for rnd in range(3 if ctx.tier == 'thorough' else 1):
+            for limits in WRITE_LIMITS:
+                for via in ('drain', 'redirect'):
+                    if hangs >= 2:
+                        ctx.count('e2e_writer.skipped_after_2_hangs')
+                        continue
+                    k += 1
+                    size = rng.choice([100000, 300000]) if rnd else (300000 if k % 2 else 100000)
+                    slow = rng.choice([0, 2]) if rnd else k % 3 == 0 and 2 or 0
+                    nwrites = rng.choice([1, 3, 10])
+                    got = await case_writer(conn, limits, size, nwrites, slow, via)
+                    why = judge_writer(size, got)
+                    ctx.note_case(('e2e-writer', limits, size, nwrites, slow, via), nontrivial=True)
+                    ctx.count('e2e_writer.limits_%s' % ('default' if limits is None else '%s_%s' % limits))
+                    if got[0] == 'hang':
+                        hangs += 1
+                    if why:
+                        report_once(ctx, 'writer:%r:%s' % (limits, via),
+                                    f'write buffer limits {limits!r}, {size} bytes in {nwrites} write(s) via {via}, '
+                                    f'peer window 16384, peer {"slow" if slow else "fast"}: {why}',
+                                    {'kind': 'e2e_writer', 'class': 'writer', 'limits': list(limits) if limits else None,
+                                     'size': size, 'nwrites': nwrites, 'slow': slow, 'via': via})
+        # ---- (i) redirecting a stream again while its previous target has the channel paused ---------------
+        for rnd in range(3 if ctx.tier == 'thorough' else 1):
+            size, piece, slow = rng.choice([200000, 400000]), 1000, rng.choice([20, 60])
+            if hangs >= 3:
+                break
+            data, got = await case_reredirect(conn, size, piece, slow, 0.05)
+            why = judge_reredirect(data, got)
+            ctx.note_case(('e2e-reredirect', size, piece, slow), nontrivial=True)
+            ctx.count('e2e_reredirect.sessions')
+            if got is not None and got[0] and got[1]:
+                ctx.count('e2e_reredirect.both_targets_got_data')
+            if got is None:
+                hangs += 1
+            if why:
+                report_once(ctx, 'reredirect', f're-redirection of stdout ({size} bytes, first target takes {slow} loop turns '
+                            f'per write): {why}',
+                            {'kind': 'e2e_reredirect', 'class': 'reredirect', 'size': size, 'piece': piece, 'slow': slow})
+    finally:
+        conn.close()
+        listener.close()
+        await listener.wait_closed()
     # ---- (g) process-to-process pipelines -------------------------------------------------------------
     listener, conn = await sshutil.loopback(srv_kw={'process_factory': _server_process, 'encoding': None})
     try:
@@ -1645,6 +1792,25 @@ def replay(rp):
                 listener.close()
                 await listener.wait_closed()
         return sshutil.run(go(), timeout=300)
+    if kind in ('e2e_writer', 'e2e_reredirect'):
+        async def go3():
+            listener, conn = await sshutil.loopback(srv_kw={'process_factory': _server_process, 'encoding': None,
+                                                            'window': 16384})
+            try:
+                if kind == 'e2e_writer':
+                    lim = tuple(rp['limits']) if rp['limits'] else None
+                    got = await case_writer(conn, lim, rp['size'], rp['nwrites'], rp['slow'], rp['via'])
+                    why = judge_writer(rp['size'], got)
+                else:
+                    data, got = await case_reredirect(conn, rp['size'], rp['piece'], rp['slow'], 0.05)
+                    why = judge_reredirect(data, got)
+                print(kind, '->', why)
+                return 1 if why else 0
+            finally:
+                conn.close()
+                listener.close()
+                await listener.wait_closed()
+        return sshutil.run(go3(), timeout=300)
     if kind in ('e2e_textenc', 'e2e_pipeline'):
         async def go2():
             if kind == 'e2e_textenc':
